@@ -17,6 +17,18 @@ CHECKS = {
              "seeded larger cases against that specification, in an exact arithmetic domain (4 ulp).",
         note="Trusted: TLC, the exact-domain encoding (dyadic inputs; result = correctly rounded sqrt of an exact "
              "integer cost), the JSON trace transport. Generic doubles whose partial sums round are not covered."),
+    "C02": dict(
+        level="model_checking", design="DESIGN.md 4/C02",
+        technique="TLA+ spec (DTWCore/DTWTrace) judges recorded outputs of every route into the C engine against the Python engine",
+        text="Every case of the exhaustive option slices and the seeded larger cases is run through the pure-Python engine "
+             "and 6-8 routes into the C engine (dtw.distance(use_c), distance_fast, dtw_cc.distance with the 0=off "
+             "encodings, dtw_ndim.*, the serial C distance-matrix routine, and a direct ctypes call of "
+             "dtw_distance(_ndim) compiled from /repo's C sources with asserts enabled); TLC judges agreement of all "
+             "routes (both infinite or the same exact-domain value, 4 ulp) and notes where the reference deviates "
+             "from the specification (decided under C01/C03).",
+        note="Trusted: TLC, exact-domain encoding, ctypes struct layout of DTWSettings (checked against dd_dtw.h by "
+             "construction). Only settings accepted by both engines are compared (no custom inner distance, "
+             "max_length_diff != 0)."),
 }
 
 NOT_YET = {
